@@ -55,6 +55,7 @@ struct Node {
   char dk = 0;              // decl kind for refs
   bool rv = false;          // wrapped in an lvalue-to-rvalue conversion
   bool arrow = false;
+  std::vector<std::pair<std::string, std::string>> parts; // offsetof/sizeof inside a folded constant
 };
 
 class Unit {
@@ -155,6 +156,52 @@ public:
     return S->getBeginLoc();
   }
 
+  static std::string memberPath(const Expr *E) {
+    std::vector<std::string> p;
+    E = E->IgnoreParenCasts();
+    while (auto *M = dyn_cast<MemberExpr>(E)) {
+      p.push_back(M->getMemberDecl()->getNameAsString());
+      E = M->getBase()->IgnoreParenCasts();
+    }
+    std::string r;
+    for (auto it = p.rbegin(); it != p.rend(); ++it) {
+      if (!r.empty()) r += ".";
+      r += *it;
+    }
+    return r;
+  }
+
+  void collectParts(const Expr *E, Node &N) {
+    struct V : RecursiveASTVisitor<V> {
+      Node &N;
+      V(Node &n) : N(n) {}
+      bool VisitOffsetOfExpr(OffsetOfExpr *O) {
+        std::string r;
+        for (unsigned i = 0; i < O->getNumComponents(); i++) {
+          const OffsetOfNode &C = O->getComponent(i);
+          if (C.getKind() == OffsetOfNode::Field) {
+            if (!r.empty()) r += ".";
+            r += C.getField()->getNameAsString();
+          }
+        }
+        N.parts.push_back({"off", r});
+        return true;
+      }
+      bool VisitUnaryExprOrTypeTraitExpr(UnaryExprOrTypeTraitExpr *U) {
+        if (U->getKind() != UETT_SizeOf) return true;
+        if (U->isArgumentType())
+          N.parts.push_back({"szt", U->getArgumentType().getCanonicalType().getAsString()});
+        else {
+          std::string mp = memberPath(U->getArgumentExpr());
+          if (!mp.empty()) N.parts.push_back({"sz", mp});
+          else N.parts.push_back({"szt", U->getArgumentExpr()->getType().getCanonicalType().getAsString()});
+        }
+        return true;
+      }
+    } v(N);
+    v.TraverseStmt(const_cast<Expr *>(E));
+  }
+
   bool tryFold(const Expr *E, Node &N) {
     if (E->isValueDependent()) return false;
     QualType T = E->getType();
@@ -237,6 +284,7 @@ public:
         os.flush();
         if (txt.size() > 160) txt.resize(160);
         N.s = txt;
+        collectParts(E, N);
       } else if (auto *M = dyn_cast<MemberExpr>(E)) {
         N.k = "mem";
         N.op = M->getMemberDecl()->getNameAsString();
@@ -350,6 +398,11 @@ public:
           if (N.dk) J.attribute("dk", std::string(1, N.dk));
           if (N.rv) J.attribute("rv", 1);
           if (N.arrow) J.attribute("ar", 1);
+          if (!N.parts.empty())
+            J.attributeArray("p", [&] {
+              for (auto &pr : N.parts)
+                J.array([&] { J.value(pr.first); J.value(pr.second); });
+            });
         });
       }
     });
